@@ -10,10 +10,6 @@ token; `hash_len` and the hex alphabet are generated.
 namespace PV.Hash
 open PV.Generated.HashMD
 
-inductive HashType where
-  | md5 | sha1 | sha224 | sha256 | sha384 | sha512
-deriving DecidableEq, Repr
-
 namespace HashType
 /-- `P_HASH_FUNCS (ret, …)` of the switch in `p_crypto_hash_new` -/
 def alg : HashType → Alg
@@ -25,9 +21,10 @@ def hashLen : HashType → Nat
   | .sha256 => hashLen_sha2_256 | .sha384 => hashLen_sha2_384 | .sha512 => hashLen_sha2_512
 end HashType
 
-structure PHash where
-  type : HashType
-  ctx : Ctx type.alg
+/-- `struct PCryptoHash_`: `type` never changes after `p_crypto_hash_new`, so it is an index here;
+    `context` is the algorithm context, `hash_len` and the function pointers are `t.hashLen`, `t.alg` -/
+structure PHash (t : HashType) where
+  ctx : Ctx t.alg
   closed : Bool
 
 /-- `pp_crypto_hash_digest_to_hex` -/
@@ -36,40 +33,42 @@ def hexOf (digest : List UInt8) : String :=
   String.ofList (digest.flatMap fun (b : UInt8) => [hx[((b >>> 4) &&& 0x0F).toNat]!, hx[(b &&& 0x0F).toNat]!])
 
 namespace PHash
+variable {t : HashType}
+
 /-- `p_crypto_hash_new` (allocation failure is C18's subject) -/
-def new (t : HashType) : PHash := { type := t, ctx := t.alg.init, closed := false }
+def new (t : HashType) : PHash t := { ctx := t.alg.init, closed := false }
 
 /-- `p_crypto_hash_update (hash, data, len)`, `data != NULL` -/
-def update (h : PHash) (data : Src) : PHash :=
+def update (h : PHash t) (data : Src) : PHash t :=
   if data.size = 0 then h
   else if h.closed then h
-  else { h with ctx := h.type.alg.update h.ctx data }
+  else { h with ctx := t.alg.update h.ctx data }
 
 /-- `p_crypto_hash_reset` -/
-def reset (h : PHash) : PHash := { h with ctx := h.type.alg.init, closed := false }
+def reset (_h : PHash t) : PHash t := { ctx := t.alg.init, closed := false }
 
 /-- `if (!hash->closed) { hash->finish (hash->context); hash->closed = TRUE; }` -/
-def close (h : PHash) : PHash :=
-  if h.closed then h else { h with ctx := h.type.alg.finish h.ctx, closed := true }
+def close (h : PHash t) : PHash t :=
+  if h.closed then h else { ctx := t.alg.finish h.ctx, closed := true }
 
 /-- the `hash_len` bytes both getters copy out of `hash->digest (hash->context)` -/
-def digestBytes (h : PHash) : List UInt8 := (h.type.alg.digest h.ctx).take h.type.hashLen
+def digestBytes (h : PHash t) : List UInt8 := (t.alg.digest h.ctx).take t.hashLen
 
 /-- `p_crypto_hash_get_string`: new state and the returned string -/
-def getString (h : PHash) : PHash × String :=
+def getString (h : PHash t) : PHash t × String :=
   let h := h.close
   (h, hexOf h.digestBytes)
 
 /-- `p_crypto_hash_get_digest (hash, buf, &len)` with `*len = cap` on entry: new state and
     `some bytes` (`*len = hash_len`) or `none` (`*len = 0`, nothing written, hash left open) -/
-def getDigest (h : PHash) (cap : Nat) : PHash × Option (List UInt8) :=
-  if h.type.hashLen > cap then (h, none)
+def getDigest (h : PHash t) (cap : Nat) : PHash t × Option (List UInt8) :=
+  if t.hashLen > cap then (h, none)
   else
     let h := h.close
     (h, some h.digestBytes)
 
 /-- `p_crypto_hash_get_length` -/
-def getLength (h : PHash) : Nat := h.type.hashLen
+def getLength (_h : PHash t) : Nat := t.hashLen
 end PHash
 
 end PV.Hash
